@@ -52,7 +52,7 @@ func checkC09(c *Ctx) {
 			}
 			for k, a := range accs {
 				slot := v + map[bool]string{true: "/write", false: "/read"}[a.Write] + "#" + itoa(k+1)
-				if a.Fn.Name() == "init" && a.Fn.Synthetic != "" {
+				if FNm(a.Fn) == "init" && a.Fn.Synthetic != "" {
 					c.Triv("R9.1", FuncKey(a.Fn), slot, a.Instr.Pos(), "package initialiser (single-threaded)")
 					continue
 				}
@@ -154,7 +154,7 @@ func c9Once(c *Ctx) {
 			pubs = append(pubs, f)
 		}
 		sort.Strings(pubs)
-		c.Check(len(pubs) > 0, "R9.2", tn, "published-fields", oi.doCall.Pos(), "fields published under the Once: %v (wrapper %s)", pubs, oi.wrapper.Name())
+		c.Check(len(pubs) > 0, "R9.2", tn, "published-fields", oi.doCall.Pos(), "fields published under the Once: %v (wrapper %s)", pubs, FNm(oi.wrapper))
 		// reads of published fields anywhere (outside the closure): dominated by a call of the wrapper / the Do
 		for _, a := range c.FieldAccesses(oi.named, pub) {
 			if a.Fn == oi.closure {
@@ -179,7 +179,7 @@ func c9Once(c *Ctx) {
 					dom = true // after the Do itself, in the wrapper
 				}
 			}
-			c.Check(dom, "R9.2", fname, slot, a.Instr.Pos(), "read of once-published %s.%s is preceded on every path by %s() (sync.Once gives the happens-before edge); an unsynchronised read races with the first-use initialisation", Desc(a.Base), a.Field, oi.wrapper.Name())
+			c.Check(dom, "R9.2", fname, slot, a.Instr.Pos(), "read of once-published %s.%s is preceded on every path by %s() (sync.Once gives the happens-before edge); an unsynchronised read races with the first-use initialisation", Desc(a.Base), a.Field, FNm(oi.wrapper))
 		}
 		// promoted methods through a published embedded field
 		st := oi.named.Underlying().(*types.Struct)
@@ -197,7 +197,7 @@ func c9Once(c *Ctx) {
 			}
 		}
 		// the wrapper calls Do unconditionally
-		c.Check(mustPass(oi.wrapper, func(i ssa.Instruction) bool { return i == ssa.Instruction(oi.doCall) }), "R9.2", FuncKey(oi.wrapper), "wrapper-always-does", oi.doCall.Pos(), "%s reaches Once.Do on every path", oi.wrapper.Name())
+		c.Check(mustPass(oi.wrapper, func(i ssa.Instruction) bool { return i == ssa.Instruction(oi.doCall) }), "R9.2", FuncKey(oi.wrapper), "wrapper-always-does", oi.doCall.Pos(), "%s reaches Once.Do on every path", FNm(oi.wrapper))
 	}
 }
 
@@ -246,7 +246,7 @@ func c9Immutable(c *Ctx) {
 	c.EachRootFunc(func(fn *ssa.Function) {
 		for _, cl := range Calls(fn) {
 			f := CalleeFunc(cl)
-			if f == nil || f.Name() != "apply" {
+			if f == nil || FNm(f) != "apply" {
 				continue
 			}
 			args := Args(cl)
@@ -257,7 +257,7 @@ func c9Immutable(c *Ctx) {
 			v := Strip(args[1])
 			fresh := IsFresh(v)
 			if call, ok := v.(*ssa.Call); ok {
-				if cf := CalleeFunc(call); cf != nil && cf.Name() == "clone" {
+				if cf := CalleeFunc(call); cf != nil && FNm(cf) == "clone" {
 					fresh = true
 				}
 				// a constructor of the module: every one of its returns hands out the object it allocated itself
@@ -266,7 +266,7 @@ func c9Immutable(c *Ctx) {
 				}
 			}
 			// forwarding appliers: optionFunc.apply(log) { f(log) } – argument is its own parameter
-			if _, isParam := v.(*ssa.Parameter); isParam && fn.Name() == "apply" {
+			if _, isParam := v.(*ssa.Parameter); isParam && FNm(fn) == "apply" {
 				continue
 			}
 			c.Check(fresh, "R9.3", FuncKey(fn), "apply-on-fresh/"+target, cl.Pos(), "options are applied to a fresh object or clone (%s), never to a shared %s", Desc(args[1]), target)
@@ -320,7 +320,7 @@ func c9Immutable(c *Ctx) {
 				okOpt := a.Fn.Parent() != nil && len(a.Fn.Params) == 1 && a.Fn.Params[0] == r && applyOK[TypeName(r.Type())]
 				// ... or the apply method of an option type (the same thing written as a named type): its callers are
 				// exactly the appliers checked above
-				if a.Fn.Name() == "apply" && a.Fn.Signature.Recv() != nil && len(a.Fn.Params) == 2 && a.Fn.Params[1] == r && applyOK[TypeName(r.Type())] {
+				if FNm(a.Fn) == "apply" && a.Fn.Signature.Recv() != nil && len(a.Fn.Params) == 2 && a.Fn.Params[1] == r && applyOK[TypeName(r.Type())] {
 					okOpt = true
 				}
 				// value receiver copies (func (w T) With(v) T { w.f = v; return w })
@@ -328,7 +328,7 @@ func c9Immutable(c *Ctx) {
 				c.Check(okOpt || !isPtr, "R9.3", fname, slot, a.Instr.Pos(), "store through parameter %s: allowed only inside an option closure (whose appliers all pass a fresh clone) or on a by-value copy", r.Name())
 			case *ssa.Call:
 				cf := CalleeFunc(r)
-				c.Check(cf != nil && (cf.Name() == "clone" || strings.HasPrefix(cf.Name(), "New")), "R9.3", fname, slot, a.Instr.Pos(), "store to the result of %s (a fresh clone)", Desc(r))
+				c.Check(cf != nil && (FNm(cf) == "clone" || strings.HasPrefix(FNm(cf), "New")), "R9.3", fname, slot, a.Instr.Pos(), "store to the result of %s (a fresh clone)", Desc(r))
 			default:
 				c.Bad("R9.3", fname, slot, a.Instr.Pos(), "store to field %s of a %s that is neither fresh nor an option-closure argument (base %s): mutates an object other goroutines may be reading", a.Field, it.name, Desc(a.Base))
 			}
@@ -454,7 +454,7 @@ func c9Blocking(c *Ctx) {
 						t := translatePath(m, callee, x.Call.Args)
 						if t != "" && ls[t] != 0 {
 							okFn = false
-							c.Bad("R9.5", name, "reacquire/"+callee.Name(), i.Pos(), "calls %s, which acquires %s, while already holding it (lockset %s): a second RLock deadlocks as soon as a writer queues in between, a second Lock always", callee.Name(), t, ls)
+							c.Bad("R9.5", name, "reacquire/"+FNm(callee), i.Pos(), "calls %s, which acquires %s, while already holding it (lockset %s): a second RLock deadlocks as soon as a writer queues in between, a second Lock always", FNm(callee), t, ls)
 						}
 					}
 				}
@@ -488,7 +488,7 @@ func c9EncoderPurity(c *Ctx, rule string) {
 			continue
 		}
 		bad := encoderTouches(fn, map[*ssa.Function]bool{}, 0)
-		c.Check(len(bad) == 0, rule, fn.String(), "receiver-untouched", fn.Pos(), "the shared encoder is only read; all mutation happens on a per-call clone: %v", bad)
+		c.Check(len(bad) == 0, rule, FStr(fn), "receiver-untouched", fn.Pos(), "the shared encoder is only read; all mutation happens on a per-call clone: %v", bad)
 	}
 }
 
@@ -579,12 +579,12 @@ func encoderTouches(fn *ssa.Function, seen map[*ssa.Function]bool, depth int) []
 			case *ssa.Store:
 				r := Root(x.Addr)
 				if r == ssa.Value(recv) {
-					bad = append(bad, fn.Name()+": store to "+Desc(x.Addr))
+					bad = append(bad, FNm(fn)+": store to "+Desc(x.Addr))
 				} else if throughHeld(x.Addr) {
-					bad = append(bad, fn.Name()+": store to "+Desc(x.Addr)+" (an object held by the shared encoder)")
+					bad = append(bad, FNm(fn)+": store to "+Desc(x.Addr)+" (an object held by the shared encoder)")
 				}
 				if fv, ok := r.(*ssa.FreeVar); ok && fv.Name() == recv.Name() {
-					bad = append(bad, fn.Name()+": store to "+Desc(x.Addr)+" (closure)")
+					bad = append(bad, FNm(fn)+": store to "+Desc(x.Addr)+" (closure)")
 				}
 			case ssa.CallInstruction:
 				cf := CalleeFunc(x)
@@ -600,17 +600,17 @@ func encoderTouches(fn *ssa.Function, seen map[*ssa.Function]bool, depth int) []
 					for ai, a := range args {
 						if _, isPtr := types.Unalias(Strip(a).Type()).Underlying().(*types.Pointer); isPtr && reach(a, 0) && !(ai == 0 && x.Common().IsInvoke()) {
 							if n, _ := types.Unalias(deref(Strip(a).Type())).(*types.Named); n != nil && n.Obj().Pkg() != nil && strings.HasPrefix(n.Obj().Pkg().Path(), "go.uber.org/zap") && n.Obj().Name() != "EncoderConfig" {
-								bad = append(bad, fn.Name()+": "+Desc(a)+" (held by the shared encoder) is handed to code that writes into it")
+								bad = append(bad, FNm(fn)+": "+Desc(a)+" (held by the shared encoder) is handed to code that writes into it")
 							}
 						}
 					}
 				}
 				d := Desc(args[0])
 				if (d == PN(recv)+".buf" || d == PN(recv)+".jsonEncoder.buf" || d == PN(recv)+".reflectBuf" || d == PN(recv)+".jsonEncoder.reflectBuf") && cf.Pkg() != nil && cf.Pkg().Path() == "go.uber.org/zap/buffer" {
-					switch cf.Name() {
+					switch FNm(cf) {
 					case "Len", "Bytes", "Cap", "String":
 					default:
-						bad = append(bad, fn.Name()+": "+cf.Name()+" on "+d)
+						bad = append(bad, FNm(fn)+": "+FNm(cf)+" on "+d)
 					}
 				}
 				// a method of the encoder called on the shared receiver: it must itself leave it untouched
@@ -668,7 +668,7 @@ func mayBe(v ssa.Value, pred func(ssa.Value) bool) bool {
 // value x.m - the method m (the $bound wrapper only forwards to it).
 func onceBody(mk *ssa.MakeClosure) *ssa.Function {
 	f := mk.Fn.(*ssa.Function)
-	if f.Synthetic != "" && strings.HasSuffix(f.Name(), "$bound") {
+	if f.Synthetic != "" && strings.HasSuffix(FNm(f), "$bound") {
 		for _, cl := range Calls(f) {
 			if sc := StaticCallee(cl); sc != nil && len(sc.Blocks) > 0 {
 				return sc
@@ -687,7 +687,7 @@ func c9GlobalTables(c *Ctx, rule string) {
 		for top.Parent() != nil {
 			top = top.Parent()
 		}
-		return top.Signature.Recv() == nil && (top.Name() == "init" || strings.HasPrefix(top.Name(), "init#"))
+		return top.Signature.Recv() == nil && (FNm(top) == "init" || strings.HasPrefix(FNm(top), "init#"))
 	}
 	// fromGlobal: the table value may be (the contents of) a package-level variable
 	var fromGlobal func(v ssa.Value, d int) *ssa.Global
